@@ -24,6 +24,8 @@ import TypedpyModel.Lemmas.EqLemmas
 import TypedpyModel.Lemmas.HashLemmas
 import TypedpyModel.Lemmas.CopyLemmas
 import TypedpyModel.Lemmas.CanonHash
+import TypedpyModel.Lemmas.AliasC11
+import TypedpyModel.Generated.AliasingC11
 import TypedpyModel.Generated.Wrappers
 set_option linter.unusedVariables false
 set_option linter.unusedSimpArgs false
@@ -709,5 +711,197 @@ theorem eq_canon_hash_example :
     ∧ (canonHashI exH {} { cls := "A", attrs := [("x", .str "a")] }
         == canonHashI exH {} { cls := "A", attrs := [("x", .str "ab")] }) = false := by
   decide
+
+/-! ### sharing: `copy.copy`, `copy.deepcopy`, pickle on the heap model (Sem/AliasC11.lean)
+
+  Identity is an address.  The walk `dcItem` is driven by the table regenerated from the code
+  (`Generated.copyRows`); the theorems hold for EVERY table, under the decidable hypothesis that the
+  strict walk succeeds (it fails exactly where an existing object would be handed on: an immutable
+  structure returned as is, a wrapper left bound to an owner that is not being copied). -/
+
+section Sharing
+open Typedpy.Alias Typedpy.AliasC11
+
+def heapRoots : Item → List Nat
+  | .ref a => [a]
+  | .atom _ => []
+
+theorem c11_newClosed_init (h : Heap) : NewClosed h.next h :=
+  fun _ ha hlt => absurd (Nat.lt_of_lt_of_le hlt ha) (Nat.lt_irrefl _)
+
+/-- **C11 (deep / unpickled copy shares nothing)**: when the strict walk succeeds it is the real
+    walk; it leaves every pre-existing cell alone; everything reachable from the copy was allocated
+    by the walk, everything reachable from the original existed before: the two reachable cell sets
+    are disjoint -/
+theorem deepcopy_disjoint (T : CKind → KindRow) (fuel : Nat) (h : Heap) (x : Nat) (h' : Heap) (y : Item)
+    (cb : ClosedBelow h.next h) (hx : x < h.next)
+    (e : dcItem true T fuel false h (.ref x) = (h', some y)) :
+    dcItem false T fuel false h (.ref x) = (h', some y)
+    ∧ (∀ a, a < h.next → h'.cells a = h.cells a)
+    ∧ (∀ b, Held h' (heapRoots y) b → h.next ≤ b ∧ b < h'.next)
+    ∧ (∀ b, Reach h' x b → b < h.next) := by
+  have fr := dcItem_frame true T fuel false h (.ref x) h' _ e
+  have fs := dcItem_fresh h.next T fuel false h (.ref x) h' y (Nat.le_refl _) (c11_newClosed_init h) e
+  refine ⟨dcItem_strict_agree T fuel false h (.ref x) h' y e, fr.2, ?_, ?_⟩
+  · intro b hb
+    obtain ⟨r, hr, rb⟩ := hb
+    cases y with
+    | atom v => simp [heapRoots] at hr
+    | ref a =>
+      simp only [heapRoots, List.mem_singleton] at hr
+      subst hr
+      exact reach_new fs.1 (fs.2 r rfl) rb
+  · intro b rb
+    exact reach_below (closedBelow_frame cb fr) hx rb
+
+/-- … hence NO history of native mutations applied to the copy (any sequence of writes into objects
+    reachable from it, and into objects created on the way) changes anything that existed before:
+    every observation of the original, to any depth, is what it was -/
+theorem deepcopy_heap_independent (T : CKind → KindRow) (fuel : Nat) (h : Heap) (x : Nat) (h' : Heap) (y : Item)
+    (cb : ClosedBelow h.next h) (hx : x < h.next)
+    (e : dcItem true T fuel false h (.ref x) = (h', some y))
+    (acts : List Act) (adm : AdmissibleAll h' (heapRoots y) acts) (n : Nat) :
+    (∀ a, a < h.next → (runScript h' (heapRoots y) acts).1.cells a = h.cells a)
+    ∧ observeN n (runScript h' (heapRoots y) acts).1 (.ref x) = observeN n h (.ref x) := by
+  obtain ⟨_, fr2, hnew, _⟩ := deepcopy_disjoint T fuel h x h' y cb hx e
+  have fr := dcItem_frame true T fuel false h (.ref x) h' _ e
+  have sp := script_protects (fun a => a < h.next) acts h' (heapRoots y)
+    (fun a ha hlt => absurd hlt (Nat.not_lt.mpr (hnew a ha).1))
+    (fun a ha => Nat.lt_of_lt_of_le ha fr.1) adm
+  have cells : ∀ a, a < h.next → (runScript h' (heapRoots y) acts).1.cells a = h.cells a := by
+    intro a ha; rw [sp.1 a ha, fr2 a ha]
+  refine ⟨cells, ?_⟩
+  apply observe_agree (fun a => a < h.next) cells (fun a ha k hk => cb a ha k hk) n
+  intro a ea
+  simp only [Item.ref.injEq] at ea
+  subst ea
+  exact hx
+
+/-- … and NO history of native mutations applied to the original (or to anything else that
+    existed before) changes any observation of the copy -/
+theorem deepcopy_heap_independent_back (T : CKind → KindRow) (fuel : Nat) (h : Heap) (x : Nat) (h' : Heap) (y : Item)
+    (cb : ClosedBelow h.next h) (hx : x < h.next)
+    (e : dcItem true T fuel false h (.ref x) = (h', some y))
+    (K : List Nat) (hK : ∀ r, r ∈ K → r < h.next)
+    (acts : List Act) (adm : AdmissibleAll h' K acts) (n : Nat) :
+    observeN n (runScript h' K acts).1 y = observeN n h' y := by
+  have fr := dcItem_frame true T fuel false h (.ref x) h' _ e
+  have fs := dcItem_fresh h.next T fuel false h (.ref x) h' y (Nat.le_refl _) (c11_newClosed_init h) e
+  have cb' := closedBelow_frame cb fr
+  have sp := script_protects (fun a => h.next ≤ a ∧ a < h'.next) acts h' K
+    (by
+      intro a ha hp
+      obtain ⟨r, hr, rb⟩ := ha
+      exact absurd (reach_below cb' (hK r hr) rb) (Nat.not_lt.mpr hp.1))
+    (fun a ha => ha.2) adm
+  apply observe_agree (fun a => h.next ≤ a ∧ a < h'.next)
+    (fun a ha => sp.1 a ha) (fun a ha k hk => fs.1 a ha.1 ha.2 k hk) n
+  intro a ea
+  exact fs.2 a ea
+
+/-- **C11 (shallow copy shares exactly the first level)**: `copy.copy` of a structure (a row with
+    mode `shallow`) is a new cell with the very same items — same values, same references — and
+    nothing that existed is touched -/
+theorem copy_shares_first_level (T : CKind → KindRow) (h : Heap) (x : Nat)
+    (hk : (kindOfTag (h.cells x).tag).isWrapper = false)
+    (hm : (T (kindOfTag (h.cells x).tag)).mode = .shallow) :
+    copyTop T h x = ((h.alloc (h.cells x)).1, some (.ref h.next))
+    ∧ (h.alloc (h.cells x)).1.cells h.next = h.cells x
+    ∧ ((h.alloc (h.cells x)).1.cells h.next).kids = (h.cells x).kids
+    ∧ (∀ a, a < h.next → (h.alloc (h.cells x)).1.cells a = h.cells a) := by
+  have hc : (h.alloc (h.cells x)).1.cells h.next = h.cells x := by simp [Heap.alloc]
+  refine ⟨?_, hc, by rw [hc], (frame_alloc h _).2⟩
+  simp only [copyTop, hk, Bool.false_eq_true, if_false, hm, allocLike, Heap.alloc]
+
+/-- the rows of a wrapper that keep copies apart: the copy is a plain container, or is bound to the
+    copied owner, and taking it does not touch the original owner -/
+def wrapperRowSafe (r : CopyRow) : Bool :=
+  !r.ownerMutated && (r.back == .detach || r.back == .memoOrDetach || r.back == .memoOrCopyOwner)
+
+/-- the wrapper rows behind the findings `wrapper-copy-*` (the table of 58bf716) -/
+def unsafeWrapperRows : List CopyRow := [
+  { op := .copy, kind := .listStruct, mode := .shallow, back := .owner, ownerMutated := true, astMode := "owner", agree := true },
+  { op := .copy, kind := .dictStruct, mode := .shallow, back := .owner, ownerMutated := false, astMode := "owner", agree := true },
+  { op := .deepcopy, kind := .listStruct, mode := .deep, back := .memoOrOwner, ownerMutated := false, astMode := "memoOrOwner", agree := true },
+  { op := .deepcopy, kind := .dictStruct, mode := .deep, back := .memoOrOwner, ownerMutated := false, astMode := "memoOrOwner", agree := true },
+  { op := .deepcopy, kind := .dequeStruct, mode := .deep, back := .memoOrOwner, ownerMutated := false, astMode := "memoOrOwner", agree := true }]
+
+/-- the repaired rows (proposed_fixes/C11-wrapper-copies-detached.diff) -/
+def repairedWrapperRows : List CopyRow := [
+  { op := .copy, kind := .listStruct, mode := .shallow, back := .detach, ownerMutated := false, astMode := "detach", agree := true },
+  { op := .copy, kind := .dictStruct, mode := .shallow, back := .detach, ownerMutated := false, astMode := "detach", agree := true },
+  { op := .deepcopy, kind := .listStruct, mode := .deep, back := .memoOrDetach, ownerMutated := false, astMode := "memoOrDetach", agree := true },
+  { op := .deepcopy, kind := .dictStruct, mode := .deep, back := .memoOrDetach, ownerMutated := false, astMode := "memoOrDetach", agree := true },
+  { op := .deepcopy, kind := .dequeStruct, mode := .deep, back := .memoOrDetach, ownerMutated := false, astMode := "memoOrDetach", agree := true }]
+
+/-- obligation re-checked against the regenerated table on every run: the source idioms agree with
+    the identity probe; structures are copied the way the statement needs (deep copy and pickle
+    rebuild a mutable structure, an immutable one is returned as is by deepcopy only, `copy.copy`
+    is shallow); every wrapper row is safe or one of the listed findings -/
+theorem copy_tables_ok :
+    Generated.copyRows.all (fun r => r.agree) = true
+    ∧ (projOf Generated.copyRows .deepcopy .structure).mode = .deep
+    ∧ (projOf Generated.copyRows .deepcopy .immStructure).mode = .self_
+    ∧ (projOf Generated.copyRows .pickle .structure).mode = .deep
+    ∧ (projOf Generated.copyRows .pickle .immStructure).mode = .deep
+    ∧ (projOf Generated.copyRows .copy .structure).mode = .shallow
+    ∧ Generated.copyRows.all (fun r => !r.kind.isWrapper || wrapperRowSafe r || unsafeWrapperRows.contains r) = true := by
+  decide
+
+/-- `x = A(arr=[1, [..]], m={..}, n=B(arr=[..]))`: cell 0 = x, 1 = x.arr (bound to 0), 2 = an untyped
+    list inside, 3 = x.m (bound to 0), 4 = the nested structure, 5 = its wrapper (bound to 4) -/
+def exHeap : Heap := Heap.ofList [
+  ⟨"Structure", [("arr", .ref 1), ("m", .ref 3), ("n", .ref 4), ("k", .atom 7)]⟩,
+  ⟨"_ListStruct", [("0", .atom 1), ("1", .ref 2), ("_instance", .ref 0)]⟩,
+  ⟨"list", [("0", .atom 5)]⟩,
+  ⟨"_DictStruct", [("a", .atom 1), ("_instance", .ref 0)]⟩,
+  ⟨"Structure", [("arr", .ref 5)]⟩,
+  ⟨"_DequeStruct", [("0", .atom 9), ("_instance", .ref 4)]⟩]
+
+/-- non-vacuity on today's table: the strict deep copy / pickle round trip of `x` succeed, allocate
+    six new cells, share no cell with `x` (to depth 6), leave the six old cells as they were, and
+    the copy reads back like `x`; `copy.copy(x)` shares exactly the first-level values -/
+theorem deepcopy_disjoint_example :
+    (match copyOp Generated.copyRows .deepcopy true 8 exHeap 0 with
+     | (h', some y) => h'.next == 12 && sameBelow 6 exHeap h'
+         && (sharedPaths 6 h' (reachList 6 exHeap (.ref 0)) [] y).isEmpty
+         && Tree.beq (observeN 6 h' y) (observeN 6 exHeap (.ref 0))
+     | _ => false) = true
+    ∧ (match copyOp Generated.copyRows .pickle true 8 exHeap 0 with
+     | (h', some y) => sameBelow 6 exHeap h' && (sharedPaths 6 h' (reachList 6 exHeap (.ref 0)) [] y).isEmpty
+     | _ => false) = true
+    ∧ (match copyOp Generated.copyRows .copy false 8 exHeap 0 with
+     | (h', some y) => sameBelow 6 exHeap h' && sharedPaths 1 h' (reachList 6 exHeap (.ref 0)) [] y == [["arr"], ["m"], ["n"]]
+     | _ => false) = true := by
+  decide
+
+/-- findings `wrapper-copy-bound-to-owner:deepcopy:*` (the rows of 58bf716): `copy.deepcopy(x.arr)`
+    taken on its own is a new wrapper whose back-reference is the ORIGINAL owner — the copy reaches
+    `x` (and through it everything `x` holds), so the strict walk fails; with the repaired rows the
+    copy is a detached plain list that shares nothing -/
+theorem wrapper_deepcopy_reaches_owner :
+    (match copyOp unsafeWrapperRows .deepcopy false 8 exHeap 1 with
+     | (h', some y) => sharedPaths 1 h' [0] [] y == [["_instance"]]
+     | _ => false) = true
+    ∧ (copyOp unsafeWrapperRows .deepcopy true 8 exHeap 1).2.isNone = true
+    ∧ (match copyOp repairedWrapperRows .deepcopy true 8 exHeap 1 with
+     | (h', some y) => (sharedPaths 6 h' (reachList 6 exHeap (.ref 0)) [] y).isEmpty && sameBelow 6 exHeap h'
+     | _ => false) = true := by
+  decide
+
+/-- finding `wrapper-copy-mutates-owner:copy:list`: `copy.copy(x.arr)` re-assigns `x.arr` (cell 0
+    changes: it now holds a new wrapper with the items stored twice) and returns a wrapper bound to
+    `x`; with the repaired rows nothing that existed changes and the copy is a plain list -/
+theorem wrapper_copy_mutates_owner :
+    (match copyOp unsafeWrapperRows .copy false 8 exHeap 1 with
+     | (h', some y) => !sameBelow 6 exHeap h' && (h'.cells 0).items.contains ("arr", .ref 6)
+         && (h'.cells 6).items.length == 5 && sharedPaths 1 h' [0] [] y == [["_instance"]]
+     | _ => false) = true
+    ∧ (match copyOp repairedWrapperRows .copy false 8 exHeap 1 with
+     | (h', some y) => sameBelow 6 exHeap h' && (h'.cells 6).tag == "list" && (sharedPaths 1 h' [0] [] y).isEmpty
+     | _ => false) = true := by
+  decide
+
+end Sharing
 
 end Typedpy.C11
